@@ -167,9 +167,29 @@ Definition resolve_plain (ws : workspace) (c : str) (m : option str) (id : str) 
 Definition resolve_member (ws : workspace) (d : str) (id : str) : list target :=
   map to_target (search_all (class_chain ws d) id).
 
-(* generate_right_hand_of_entity: when D's file is the file of the request the NEAREST table of
-   the cursor is used (the method's table), otherwise the table of D *)
+(* manager/utils.rs class_level_table: from the nearest table climb while the parent table is for
+   the same class (a method's table has the same for_class_or_module as the class's table) *)
+Fixpoint class_level (c : chain) : chain :=
+  match c with
+  | s :: ps =>
+      match ps with
+      | p :: _ => if str_eqb (cls p) (cls s) then class_level ps else c
+      | [] => c
+      end
+  | [] => c
+  end.
+
+(* generate_right_hand_of_entity: when D's file is the file of the request the class-level table
+   above the cursor's nearest table is used (fix 945552f), otherwise the table of D *)
 Definition member_chain (ws : workspace) (c : str) (m : option str) (d : str) : chain :=
+  match find_entity ws d with
+  | None => []
+  | Some _ => if ci_eqb d c then class_level (scope_chain ws c m) else class_chain ws d
+  end.
+
+(* the step before fix 945552f (the nearest table itself, i.e. the method's): kept so that the
+   refutation of the member clause for the old code stays a checked theorem *)
+Definition member_chain_old (ws : workspace) (c : str) (m : option str) (d : str) : chain :=
   match find_entity ws d with
   | None => []
   | Some _ => if ci_eqb d c then scope_chain ws c m else class_chain ws d
@@ -178,19 +198,16 @@ Definition member_chain (ws : workspace) (c : str) (m : option str) (d : str) : 
 Definition definition_member (ws : workspace) (c : str) (m : option str) (d : str) (id : str) : list target :=
   map to_target (search_all (member_chain ws c m d) id).
 
-(* cursor on a direct child of the procedure / function node, i.e. the declared name of the
-   method or a function's return type: check_parent_method_decl, generate_loc_link_all on the
-   nearest table = the method's own table; no `uses` *)
-Definition definition_method_header (ws : workspace) (c : str) (mn : str) (id : str) : list target :=
-  map to_target (search_all (scope_chain ws c (Some mn)) id).
+(* cursor on the declared name of a method (check_parent_method_decl: the identifier child only,
+   fix 7983abd): generate_loc_link_all on the class-level table above the method's own table.
+   A function's return type is an ordinary type reference: resolve_plain inside that method. *)
+Definition definition_method_name (ws : workspace) (c : str) (mn : str) : list target :=
+  map to_target (search_all (class_level (scope_chain ws c (Some mn))) mn).
 
-(* cursor on the declared name of a field (AstGlobalVariableDeclaration): nearest table = root;
-   on the declared name of a constant or type get_id answers None: no link *)
-Definition definition_member_name (ws : workspace) (c : str) (k : mkind) (id : str) : list target :=
-  match k with
-  | MField => map to_target (search_all (class_chain ws c) id)
-  | _ => []
-  end.
+(* cursor on the declared name of a field, constant or type (check_is_gvar_decl, fix efb255c):
+   generate_loc_link_all on the nearest table = the root table of the file *)
+Definition definition_member_name (ws : workspace) (c : str) (id : str) : list target :=
+  map to_target (search_all (class_chain ws c) id).
 
 (* ---------- eval types (type_resolver.rs + the annotator's terminal / call handlers) ---------- *)
 
@@ -368,16 +385,15 @@ Definition head_etype (ws : workspace) (c : str) (m : option str) (i : item) : o
       else sym_etype etype_fuel ws m (search_wparent (scope_chain_during ws c m) n)
   end.
 
-(* element after a dot: eval_right_hand_of_entity / resolve_method_call.  The current table
-   (with the method's variables) is used when the left type is spelled exactly as the class
-   being annotated; a call is resolved for Class left types only *)
+(* element after a dot: eval_right_hand_of_entity / resolve_method_call.  When the left type is
+   spelled exactly as the class being annotated its root table is used (fix 945552f: no longer
+   the current method's table), otherwise the table of that class; read and call alike, after a
+   Class and after a Module (fix 4a7e667) *)
 Definition next_etype (ws : workspace) (c : str) (m : option str) (left : sty) (i : item) : option sty :=
   let own := match find_entity ws c with Some e => e_name e | None => c end in
   let d := match left with SClass s => s | SModule s => s end in
-  let call_on_module := match i, left with ICall _, SModule _ => true | _, _ => false end in
-  if call_on_module then None
-  else if str_eqb d own then
-    sym_etype etype_fuel ws m (search_wparent (scope_chain_during ws c m) (item_name i))
+  if str_eqb d own then
+    sym_etype etype_fuel ws None (search_wparent (class_chain_during ws c m c) (item_name i))
   else
     match find_entity ws d with
     | Some _ => sym_etype etype_fuel ws None (search_wparent (class_chain_during ws c m d) (item_name i))
@@ -437,8 +453,8 @@ Definition complete_plain (ws : workspace) (c : str) (m : option str) : list str
 Inductive query :=
 | QPlain (c : str) (m : option str) (id : str)                        (* definition: plain identifier *)
 | QDotted (c : str) (m : option str) (prefix : list item) (id : str)  (* definition: name after a dot *)
-| QMethodHeader (c : str) (mn : str) (id : str)                       (* definition: declared name / return type of a method *)
-| QMemberName (c : str) (k : mkind) (id : str)                        (* definition: declared name of a member *)
+| QMethodName (c : str) (mn : str)                                    (* definition: declared name of a method *)
+| QMemberName (c : str) (id : str)                                    (* definition: declared name of a field / constant / type *)
 | QCompleteDot (c : str) (m : option str) (prefix : list item)        (* completion after `prefix.` *)
 | QCompletePlain (c : str) (m : option str).                          (* completion elsewhere *)
 
@@ -448,8 +464,8 @@ Definition answer_query (ws : workspace) (q : query) : answer :=
   match q with
   | QPlain c m id => ALinks (match resolve_plain ws c m id with Some t => [t] | None => [] end)
   | QDotted c m p id => ALinks (definition_dotted ws c m p id)
-  | QMethodHeader c mn id => ALinks (definition_method_header ws c mn id)
-  | QMemberName c k id => ALinks (definition_member_name ws c k id)
+  | QMethodName c mn => ALinks (definition_method_name ws c mn)
+  | QMemberName c id => ALinks (definition_member_name ws c id)
   | QCompleteDot c m p => ALabels (completion_dotted ws c m p)
   | QCompletePlain c m => ALabels (complete_plain ws c m)
   end.
